@@ -846,13 +846,37 @@ def _percent_format(tmpl, args):
             lit.append(ord(ch))
             k += 1
             continue
-        spec = text[k + 1]
-        k += 2
+        # %[0][width]spec
+        j = k + 1
+        zero = False
+        if j < len(text) and text[j] == '0':
+            zero = True
+            j += 1
+        width = 0
+        while j < len(text) and text[j].isdigit():
+            width = width * 10 + int(text[j])
+            j += 1
+        spec = text[j]
+        k = j + 1
         if spec == '%':
             lit.append(37)
             continue
         arg = args[ai]
         ai += 1
+        if spec in 'xX' or ((zero or width) and spec in 'sd'):
+            if type(arg) is SInt and spec == 'x' and arg.lo >= 0 and \
+                    arg.hi <= 255 and width in (0, 2) and (zero or not width):
+                digits = seq.hex2(arg)
+                if width == 0:
+                    # no padding: drop a leading zero digit
+                    if arg < 16:
+                        digits = digits[1:]
+                lit.extend(digits)
+            else:
+                fmt = '%' + ('0' if zero else '') + (str(width) if width
+                                                     else '') + spec
+                lit.extend(ord(c) for c in (fmt % (realise(arg),)))
+            continue
         if spec in 'sd':
             if type(arg) is SInt:
                 lit.extend(seq.elems_of(seq.int_to_str(arg)))
@@ -870,3 +894,46 @@ def _percent_format(tmpl, args):
         else:
             raise Unsupported('%%-format spec %r with symbolic args' % spec)
     return seq.make(BYTES if is_b else STR, lit)
+
+
+def fstr(*parts):
+    """f-string evaluation; symbolic integers are rendered exactly."""
+    sym = False
+    for p in parts:
+        if type(p) is tuple and type(p[0]) in PROXY_TYPES:
+            sym = True
+    out = []
+    for p in parts:
+        if type(p) is not tuple:
+            out.append(p if not sym else [ord(c) for c in p])
+            continue
+        v, conv, spec = p
+        if type(spec) in PROXY_TYPES:
+            spec = realise(spec)
+        if type(v) in PROXY_TYPES and core._cur is not None:
+            if type(v) is SInt and conv == -1 and spec in (None, '', 'd'):
+                out.append(seq.elems_of(seq.int_to_str(v)))
+            elif type(v) is SInt and conv == -1 and spec == '02x' and \
+                    v.lo >= 0 and v.hi <= 255:
+                out.append(seq.hex2(v))
+            elif isinstance(v, SSeq) and v.kind == STR and conv == -1 and \
+                    not spec:
+                out.append(list(v.items))
+            else:
+                cur().notes.append('placeholder text in f-string')
+                out.append([ord(c) for c in '<sym>'])
+            continue
+        if conv == 114:
+            v = repr(v)
+        elif conv == 115:
+            v = str(v)
+        elif conv == 97:
+            v = ascii(v)
+        t = format(v, spec or '')
+        out.append(t if not sym else [ord(c) for c in t])
+    if not sym:
+        return ''.join(out)
+    items = []
+    for o in out:
+        items.extend(o)
+    return seq.make(STR, items)
